@@ -32,3 +32,6 @@ for s in seeds:
     results[s] = {"target": target, "checks": row}
     print(s, "target", target, " ".join(f"{p}:{'VIOL' if v['exit']==1 else 'pass' if v['exit']==0 else 'INC'}" for p, v in row.items()))
 json.dump(results, open(res_path, "w"), indent=1, sort_keys=True)
+# evidence files were rewritten by runs on seeded trees: refresh them on the clean tree
+for p in (props or claimed):
+    subprocess.run([f"{V}/check", p, "--tier", "quick"], capture_output=True, text=True)
